@@ -1,6 +1,7 @@
 package main
 
 import (
+	"encoding/hex"
 	"fmt"
 	"os"
 
@@ -17,32 +18,130 @@ import (
 // A field specifier of length 0 is decoded — an entry with an empty value — without consuming an octet, so a
 // record of a template with z such fields costs z entries that no octet of the datagram pays for: records x z.
 // That product is finding K4 (recorded, not repaired: see known_findings.json); it is named only when the harness
-// has itself found z > 0 in the real cache and the excess stays within allocPerOctet * octets * z. Anything above
-// the linear bound that zero-length fields do not explain is an ordinary violation (`fail:alloc`).
+// has itself found z > 0 zero-length specifiers in a template THIS datagram uses (a template of its exporter whose id
+// is the id of one of the datagram's sets — looked up in the real cache after the decode, so a template the datagram
+// announces itself counts) and the excess stays within allocPerOctet * octets * z. Anything above the linear bound
+// that the zero-length fields of the templates in use do not explain is an ordinary violation (`fail:alloc`) — also
+// when some OTHER template in the cache has such fields.
 const (
 	allocBase     = 16384
 	allocPerOctet = 200
 )
 
-func allocVerdict(alloc uint64, dgLen int, cache interface{}) string {
+func allocVerdict(alloc uint64, addr, dg []byte, isIPFIX bool, zBefore int, cache interface{}) string {
+	dgLen := len(dg)
 	lin := uint64(allocBase) + allocPerOctet*uint64(dgLen+24)
 	if alloc <= lin {
 		return ""
 	}
-	z := zeroLenFields(cache)
+	// the templates in use: in the cache before the decode (zBefore), in the cache after it, or announced — and
+	// possibly replaced again — inside the datagram itself
+	z := zeroLenFields(cache, usedKeys(addr, dg, flowHdrLen(isIPFIX)))
+	if zBefore > z {
+		z = zBefore
+	}
+	if zi := zeroLenAnnounced(dg, isIPFIX); zi > z {
+		z = zi
+	}
 	if z > 0 && alloc <= lin+allocPerOctet*uint64(dgLen+24)*uint64(z) {
 		if os.Getenv("VERIF_PROP") != "C02" {
 			// K4 is a recorded finding of C02: it is named in that property's run only (the same streams also serve
 			// C01 / C03 / C06, whose properties say nothing about allocation)
 			return ""
 		}
-		return fmt.Sprintf("fail:amplification %d bytes allocated for a %d-octet datagram (linear bound %d): a cached template has %d zero-length fields, each decoded record pays for them without consuming an octet", alloc, dgLen, lin, z)
+		return fmt.Sprintf("fail:amplification %d bytes allocated for a %d-octet datagram (linear bound %d): a template it uses has %d zero-length fields, each decoded record pays for them without consuming an octet", alloc, dgLen, lin, z)
 	}
-	return fmt.Sprintf("fail:alloc %d bytes allocated for a %d-octet datagram (linear bound %d, zero-length fields in the cache: %d)", alloc, dgLen, lin, z)
+	return fmt.Sprintf("fail:alloc %d bytes allocated for a %d-octet datagram (linear bound %d, zero-length fields in the templates it uses: %d)", alloc, dgLen, lin, z)
 }
 
-// zeroLenFields: the largest number of zero-length field specifiers in any template of the real cache
-func zeroLenFields(c interface{}) int {
+func flowHdrLen(isIPFIX bool) int {
+	if isIPFIX {
+		return 16
+	}
+	return 20
+}
+
+// zeroLenAnnounced: the largest number of zero-length specifiers in a template record the datagram itself carries
+// (template / options template sets walked by their declared lengths; a record that does not fit ends the set)
+func zeroLenAnnounced(dg []byte, isIPFIX bool) int {
+	z := 0
+	u16 := func(b []byte) int { return int(b[0])<<8 | int(b[1]) }
+	for off := flowHdrLen(isIPFIX); off+4 <= len(dg); {
+		id, ln := u16(dg[off:]), u16(dg[off+2:])
+		if ln < 4 {
+			break
+		}
+		end := off + ln
+		if end > len(dg) {
+			end = len(dg)
+		}
+		body := dg[off+4 : end]
+		tplSet, optSet := 2, 3
+		if !isIPFIX {
+			tplSet, optSet = 0, 1
+		}
+		for (id == tplSet || id == optSet) && len(body) >= 4 {
+			n := 0 // specifiers of this record
+			switch {
+			case id == tplSet:
+				n, body = u16(body[2:]), body[4:]
+			case isIPFIX:
+				if len(body) < 6 {
+					body = nil
+					continue
+				}
+				n, body = u16(body[2:]), body[6:]
+			default:
+				if len(body) < 6 {
+					body = nil
+					continue
+				}
+				n, body = (u16(body[2:])+u16(body[4:]))/4, body[6:]
+			}
+			zr := 0
+			for i := 0; i < n && len(body) >= 4; i++ {
+				if u16(body[2:]) == 0 {
+					zr++
+				}
+				step := 4
+				if isIPFIX && body[0]&0x80 != 0 {
+					step = 8
+				}
+				if len(body) < step {
+					body = nil
+					break
+				}
+				body = body[step:]
+			}
+			if zr > z {
+				z = zr
+			}
+		}
+		off += ln
+	}
+	return z
+}
+
+// usedKeys: the cache keys (hex text of the exporter's address octets followed by the template id, as getShard builds
+// them) of the set ids > 255 of the datagram, walking the sets by their declared lengths as the decoders do
+func usedKeys(addr, dg []byte, hdrLen int) map[string]bool {
+	keys := map[string]bool{}
+	for off := hdrLen; off+4 <= len(dg); {
+		id := int(dg[off])<<8 | int(dg[off+1])
+		ln := int(dg[off+2])<<8 | int(dg[off+3])
+		if id > 255 {
+			keys[hex.EncodeToString(append(append([]byte{}, addr...), dg[off], dg[off+1]))] = true
+		}
+		if ln < 4 {
+			break
+		}
+		off += ln
+	}
+	return keys
+}
+
+// zeroLenFields: the largest number of zero-length field specifiers in any of the named templates of the real cache
+func zeroLenFields(c interface{}, keys map[string]bool) int {
 	z := 0
 	count := func(scope, fields int) {
 		if scope+fields > z {
@@ -55,7 +154,10 @@ func zeroLenFields(c interface{}) int {
 			if sh == nil {
 				continue
 			}
-			for _, d := range sh.Templates {
+			for k, d := range sh.Templates {
+				if !keys[k] {
+					continue
+				}
 				a, b := 0, 0
 				for _, f := range d.Template.ScopeFieldSpecifiers {
 					if f.Length == 0 {
@@ -75,7 +177,10 @@ func zeroLenFields(c interface{}) int {
 			if sh == nil {
 				continue
 			}
-			for _, d := range sh.Templates {
+			for k, d := range sh.Templates {
+				if !keys[k] {
+					continue
+				}
 				a, b := 0, 0
 				for _, f := range d.Template.ScopeFieldSpecifiers {
 					if f.Length == 0 {
